@@ -433,4 +433,286 @@ theorem normalPass_isOk {finals : List String} (L : List Spec) (hL : ∀ s ∈ L
     · exact absurd hfin (hf c hc)
     · exact absurd hnd hn
 
+/-! ## modifying pass -/
+
+/-- invariant of the modifying pass; `Q n p` = "the specifier named `n` may modify `p`" -/
+structure MInv (Q : String → String → Prop) (P : List Cand) (st : MState) : Prop where
+  pinv : PInv P st.props
+  mods : ∀ p m, get st.modifying p = some m → ∃ n km, m = .user n ∧ (⟨n, true, p, km⟩ : Cand) ∈ P ∧ Q n p ∧
+    ∃ node cur, get st.props p = some (node, cur) ∧ cur ≤ km
+
+theorem stepMod_ok {Q : String → String → Prop} {s : Spec} {st st' : MState} {pk : String × Nat}
+    {P : List Cand} (hQ : ∀ p ∈ s.modifiable, Q s.name p) (hI : MInv Q P st)
+    (h : stepMod s st pk = .ok st') : MInv Q (P ++ [mkCand s.name true pk]) st' := by
+  unfold stepMod at h
+  have hmods_put : ∀ (hlt : ∀ node cur, get st.props pk.1 = some (node, cur) → pk.2 < cur),
+      ∀ p m, get st.modifying p = some m → ∃ n km, m = .user n ∧
+        (⟨n, true, p, km⟩ : Cand) ∈ P ++ [mkCand s.name true pk] ∧ Q n p ∧
+        ∃ node cur, get (put st.props pk.1 (Node.user s.name, pk.2)) p = some (node, cur) ∧ cur ≤ km := by
+    intro hlt p m hm
+    obtain ⟨n, km, hn, hc, hq, node, cur, hg, hle⟩ := hI.mods p m hm
+    refine ⟨n, km, hn, List.mem_append_left _ hc, hq, ?_⟩
+    by_cases hp : pk.1 = p
+    · subst hp
+      rw [get_put_self]
+      have := hlt node cur hg
+      exact ⟨_, _, rfl, by omega⟩
+    · rw [get_put_ne _ _ hp]; exact ⟨node, cur, hg, hle⟩
+  split at h
+  · rename_i node cur hg
+    split at h
+    · rename_i hlt
+      cases h
+      have hlt' : ∀ node' cur', get st.props pk.1 = some (node', cur') → pk.2 < cur' := by
+        intro n' c' h'; rw [hg] at h'; cases h'; exact hlt
+      exact ⟨PInv_put hI.pinv s.name true pk.1 pk.2 hlt', hmods_put hlt'⟩
+    · rename_i hnlt
+      have hkeep := PInv_keep hI.pinv s.name true pk.1 pk.2 node cur hg (by omega) (by simp)
+      split at h
+      · rename_i hmod
+        split at h
+        · cases h
+        · rename_i hnone
+          cases h
+          refine ⟨hkeep, ?_⟩
+          intro p m hm
+          by_cases hp : pk.1 = p
+          · subst hp
+            rw [get_put_self] at hm; cases hm
+            exact ⟨s.name, pk.2, rfl, by simp [mkCand], hQ _ hmod, node, cur, hg, by omega⟩
+          · rw [get_put_ne _ _ hp] at hm
+            obtain ⟨n, km, hn, hc, hq, hrest⟩ := hI.mods p m hm
+            exact ⟨n, km, hn, List.mem_append_left _ hc, hq, hrest⟩
+      · cases h
+        refine ⟨hkeep, ?_⟩
+        intro p m hm
+        obtain ⟨n, km, hn, hc, hq, hrest⟩ := hI.mods p m hm
+        exact ⟨n, km, hn, List.mem_append_left _ hc, hq, hrest⟩
+  · rename_i hg
+    cases h
+    have hlt' : ∀ node' cur', get st.props pk.1 = some (node', cur') → pk.2 < cur' := by
+      intro n' c' h'; rw [hg] at h'; cases h'
+    exact ⟨PInv_put hI.pinv s.name true pk.1 pk.2 hlt', hmods_put hlt'⟩
+
+theorem stepsMod_ok {Q : String → String → Prop} {s : Spec} (hQ : ∀ p ∈ s.modifiable, Q s.name p)
+    (prs : List (String × Nat)) :
+    ∀ {st st' : MState} {P : List Cand}, MInv Q P st → stepsMod s prs st = .ok st' →
+    MInv Q (P ++ prs.map (mkCand s.name true)) st' := by
+  induction prs with
+  | nil => intro st st' P hI h; simp only [stepsMod] at h; cases h; simpa using hI
+  | cons pk rest ih =>
+    intro st st' P hI h
+    simp only [stepsMod] at h
+    split at h
+    · cases h
+    · rename_i st1 h1
+      have := ih (stepMod_ok hQ hI h1) h
+      simpa [List.append_assoc] using this
+
+theorem candsOf_mod {s : Spec} (h : s.modifying = true) : candsOf s = s.prios.map (mkCand s.name true) := by
+  simp [candsOf, mkCand, h]
+
+theorem modPass_ok {Q : String → String → Prop} (L : List Spec) (hL : ∀ s ∈ L, s.modifying = true)
+    (hQ : ∀ s ∈ L, ∀ p ∈ s.modifiable, Q s.name p) :
+    ∀ {st st' : MState} {P : List Cand}, MInv Q P st → modPass L st = .ok st' →
+    MInv Q (P ++ cands L) st' := by
+  induction L with
+  | nil => intro st st' P hI h; simp only [modPass] at h; cases h; simpa [cands] using hI
+  | cons s rest ih =>
+    intro st st' P hI h
+    simp only [modPass] at h
+    split at h
+    · cases h
+    · rename_i st1 h1
+      have h2 := stepsMod_ok (hQ s (by simp)) s.prios hI h1
+      rw [← candsOf_mod (hL s (by simp))] at h2
+      have := ih (fun t ht => hL t (List.mem_cons_of_mem _ ht))
+        (fun t ht => hQ t (List.mem_cons_of_mem _ ht)) h2 h
+      simpa [cands, List.append_assoc] using this
+
+/-- the only error of the modifying pass -/
+theorem modPass_error (L : List Spec) : ∀ {st : MState} {e : Err}, modPass L st = .error e → e = .modifiedTwice := by
+  have hstep : ∀ {s : Spec} {st : MState} {pk : String × Nat} {e : Err}, stepMod s st pk = .error e → e = .modifiedTwice := by
+    intro s st pk e h
+    unfold stepMod at h
+    split at h
+    · split at h
+      · cases h
+      · split at h
+        · split at h
+          · cases h; rfl
+          · cases h
+        · cases h
+    · cases h
+  have hsteps : ∀ {s : Spec} (prs : List (String × Nat)) {st : MState} {e : Err},
+      stepsMod s prs st = .error e → e = .modifiedTwice := by
+    intro s prs
+    induction prs with
+    | nil => intro st e h; simp [stepsMod] at h
+    | cons pk rest ih =>
+      intro st e h
+      simp only [stepsMod] at h
+      split at h
+      · rename_i e' h1; cases h; exact hstep h1
+      · exact ih h
+  induction L with
+  | nil => intro st e h; simp [modPass] at h
+  | cons s rest ih =>
+    intro st e h
+    simp only [modPass] at h
+    split at h
+    · rename_i e' h1; cases h; exact hsteps _ h1
+    · exact ih h
+
+/-! ### the modifying pass reads `properties` only through look-ups -/
+
+def MEq (a b : MState) : Prop := (∀ p, get a.props p = get b.props p) ∧ a.modifying = b.modifying
+
+def ERel {α} (R : α → α → Prop) : Except Err α → Except Err α → Prop
+  | .ok a, .ok b => R a b
+  | .error e1, .error e2 => e1 = e2
+  | _, _ => False
+
+theorem stepMod_ext (s : Spec) {a b : MState} (pk : String × Nat) (h : MEq a b) :
+    ERel MEq (stepMod s a pk) (stepMod s b pk) := by
+  obtain ⟨hp, hm⟩ := h
+  unfold stepMod
+  rw [← hp pk.1, ← hm]
+  have hput : ∀ v, MEq ⟨put a.props pk.1 v, a.modifying⟩ ⟨put b.props pk.1 v, a.modifying⟩ := by
+    intro v; refine ⟨fun p => ?_, rfl⟩
+    simp only [get_put, hp]
+  cases hg : get a.props pk.1 with
+  | none => simp only [ERel]; exact hput _
+  | some v =>
+    obtain ⟨node, cur⟩ := v
+    simp only
+    split
+    · simp only [ERel]; exact hput _
+    · split
+      · cases get a.modifying pk.1 with
+        | some _ => simp [ERel]
+        | none => simp only [ERel]; exact ⟨hp, rfl⟩
+      · simp only [ERel]; exact ⟨hp, hm⟩
+
+theorem stepsMod_ext (s : Spec) (prs : List (String × Nat)) : ∀ {a b : MState}, MEq a b →
+    ERel MEq (stepsMod s prs a) (stepsMod s prs b) := by
+  induction prs with
+  | nil => intro a b h; simpa [stepsMod, ERel] using h
+  | cons pk rest ih =>
+    intro a b h
+    have h1 := stepMod_ext s pk h
+    simp only [stepsMod]
+    cases ha : stepMod s a pk <;> cases hb : stepMod s b pk <;> rw [ha, hb] at h1 <;> simp only [ERel] at h1
+    · subst h1; simp [ERel]
+    · exact ih h1
+
+theorem modPass_ext (L : List Spec) : ∀ {a b : MState}, MEq a b → ERel MEq (modPass L a) (modPass L b) := by
+  induction L with
+  | nil => intro a b h; simpa [modPass, ERel] using h
+  | cons s rest ih =>
+    intro a b h
+    have h1 := stepsMod_ext s s.prios h
+    simp only [modPass]
+    cases ha : stepsMod s s.prios a <;> cases hb : stepsMod s s.prios b <;> rw [ha, hb] at h1 <;> simp only [ERel] at h1
+    · subst h1; simp [ERel]
+    · exact ih h1
+
+/-! ## defaults -/
+
+theorem addDefaults_get (prio : List (String × (Node × Nat))) (defs : List (String × List String)) :
+    ∀ (assign : List (String × Node)) (added : List Node) (q : String),
+    get (addDefaults prio defs assign added).1 q =
+      if (defs.any (fun e => decide (e.1 = q)) && (get prio q).isNone) = true then some (.dflt q)
+      else get assign q := by
+  induction defs with
+  | nil => intro assign added q; simp [addDefaults]
+  | cons d rest ih =>
+    intro assign added q
+    obtain ⟨p, dd⟩ := d
+    simp only [addDefaults]
+    cases hg : get prio p with
+    | none =>
+      rw [ih]
+      by_cases hpq : p = q
+      · subst hpq
+        simp [hg, get_put_self]
+      · rw [get_put_ne _ _ hpq]
+        have hd : decide (p = q) = false := decide_eq_false hpq
+        simp only [List.any_cons, hd, Bool.false_or]
+    | some v =>
+      rw [ih]
+      by_cases hpq : p = q
+      · subst hpq; simp [hg]
+      · have hd : decide (p = q) = false := decide_eq_false hpq
+        simp only [List.any_cons, hd, Bool.false_or]
+
+theorem addDefaults_added (prio : List (String × (Node × Nat))) (defs : List (String × List String)) :
+    ∀ (assign : List (String × Node)) (added : List Node),
+    (addDefaults prio defs assign added).2 =
+      added ++ (defs.filter (fun e => (get prio e.1).isNone)).map (fun e => Node.dflt e.1) := by
+  induction defs with
+  | nil => intro assign added; simp [addDefaults]
+  | cons d rest ih =>
+    intro assign added
+    obtain ⟨p, dd⟩ := d
+    simp only [addDefaults]
+    cases hg : get prio p with
+    | none => simp [ih, hg]
+    | some v => simp [ih, hg]
+
+/-! ## looking a specifier up by name -/
+
+theorem find?_perm_unique {α} {p : α → Bool} {l1 l2 : List α} (h : l1.Perm l2)
+    (hu : ∀ a ∈ l1, ∀ b ∈ l1, p a = true → p b = true → a = b) : l1.find? p = l2.find? p := by
+  cases h1 : l1.find? p with
+  | none =>
+    rw [List.find?_eq_none] at h1
+    symm; rw [List.find?_eq_none]
+    intro x hx; exact h1 x (h.mem_iff.mpr hx)
+  | some a =>
+    have ha := List.find?_some h1
+    have hma := List.mem_of_find?_eq_some h1
+    cases h2 : l2.find? p with
+    | none =>
+      rw [List.find?_eq_none] at h2
+      exact absurd ha (h2 a (h.mem_iff.mp hma))
+    | some b =>
+      have hb := List.find?_some h2
+      have hmb := h.mem_iff.mpr (List.mem_of_find?_eq_some h2)
+      rw [hu a hma b hmb ha hb]
+
+theorem nodup_map_inj {α β} {f : α → β} : ∀ {l : List α}, (l.map f).Nodup → ∀ {a b}, a ∈ l → b ∈ l → f a = f b → a = b := by
+  intro l
+  induction l with
+  | nil => intro _ a b ha; simp at ha
+  | cons x xs ih =>
+    intro h a b ha hb hab
+    simp only [List.map_cons, List.nodup_cons, List.mem_map, not_exists, not_and] at h
+    rcases List.mem_cons.mp ha with ha1 | ha1
+    · rcases List.mem_cons.mp hb with hb1 | hb1
+      · rw [ha1, hb1]
+      · subst ha1; exact absurd hab.symm (h.1 b hb1)
+    · rcases List.mem_cons.mp hb with hb1 | hb1
+      · subst hb1; exact absurd hab (h.1 a ha1)
+      · exact ih h.2 ha1 hb1 hab
+
+theorem hasDup_eq_false_iff (l : List String) : hasDup l = false ↔ l.Nodup := by
+  induction l with
+  | nil => simp [hasDup]
+  | cons x xs ih =>
+    simp only [hasDup, Bool.or_eq_false_iff, List.nodup_cons, ih]
+    simp
+
+theorem depsOf_perm (C : ClassInfo) {S1 S2 : List Spec} (h : S1.Perm S2)
+    (hnd : (S1.map (·.name)).Nodup) : depsOf C S1 = depsOf C S2 := by
+  funext n
+  cases n with
+  | dflt p => rfl
+  | user n =>
+    simp only [depsOf]
+    rw [find?_perm_unique h]
+    intro a ha b hb hpa hpb
+    simp only [decide_eq_true_eq] at hpa hpb
+    exact nodup_map_inj hnd ha hb (by rw [hpa, hpb])
+
 end Scenic.Spec
